@@ -490,6 +490,55 @@ var w10Scenarios = map[string][]w10Scenario{
 			return narrowSig, narrowDet
 		},
 	},
+	"C16": {
+		// a name the base has no field for selects nothing: the derived schema behaves like the one written out by hand
+		func() (string, map[string]any) {
+			type user struct {
+				Name  string
+				Age   int
+				Ghost string
+			}
+			base := func() *z.StructSchema {
+				return z.Struct(z.Schema{"name": z.String().Min(3), "age": z.Int().GT(0)})
+			}
+			byHand := func() *z.StructSchema { return z.Struct(z.Schema{"name": z.String().Min(3)}) }
+			withGhost := func() *z.StructSchema {
+				return z.Struct(z.Schema{"ghost": z.String().Required(), "name": z.String().Min(3)})
+			}
+			derived := map[string]func() *z.StructSchema{
+				`base.Pick("name", "ghost")`:                    func() *z.StructSchema { return base().Pick("name", "ghost") },
+				`base.Pick(map{name: true, ghost: true})`:       func() *z.StructSchema { return base().Pick(map[string]bool{"name": true, "ghost": true, "age": false}) },
+				`base.Omit("age", "ghost")`:                     func() *z.StructSchema { return base().Omit("age", "ghost") },
+				`base.Pick("name", "ghost").Omit("ghost")`:      func() *z.StructSchema { return base().Pick("name", "ghost").Omit("ghost") },
+				`base.Pick("name").Merge(base.Pick("missing"))`: func() *z.StructSchema { return base().Pick("name").Merge(base().Pick("missing")) },
+			}
+			run := func(sch *z.StructSchema, data map[string]any) (out string) {
+				defer func() {
+					if r := recover(); r != nil {
+						out = fmt.Sprint("PANIC: ", r)
+					}
+				}()
+				u := user{Age: -5, Ghost: "untouched"}
+				m := sch.Parse(data, &u)
+				v := user{Name: fmt.Sprint(data["name"]), Age: -5, Ghost: "untouched"}
+				mv := sch.Validate(&v)
+				return fmt.Sprintf("parse %+v [%s] validate %+v [%s]", u, w10Keys(m), v, w10Keys(mv))
+			}
+			for _, data := range []map[string]any{{"name": "alice", "age": 3, "ghost": "g"}, {"name": "al"}, {"name": "bob", "ghost": ""}} {
+				want := run(byHand(), data)
+				for name, mk := range derived {
+					if got := run(mk(), data); got != want {
+						return "derived-schema-differs-from-hand-written|name-the-base-has-no-field-for", map[string]any{"base": "{name: String().Min(3), age: Int().GT(0)}", "derived": name, "input": fmt.Sprint(data), "derived_result": got, "hand_written_result": want}
+					}
+				}
+				wantG := run(withGhost(), data)
+				if got := run(withGhost().Merge(base().Pick("ghost")), data); got != wantG {
+					return "derived-schema-differs-from-hand-written|name-the-base-has-no-field-for", map[string]any{"base": "{name: String().Min(3), age: Int().GT(0)}", "derived": `{ghost: String().Required(), name}.Merge(base.Pick("ghost"))`, "input": fmt.Sprint(data), "derived_result": got, "hand_written_result": wantG}
+				}
+			}
+			return "", nil
+		},
+	},
 	"C17": {
 		// the parameters of a test belong to that test: what a MessageFunc writes into the issue of one test never shows on another schema
 		func() (string, map[string]any) {
